@@ -48,6 +48,11 @@ def cases(tier, seed):
         out.append(('order_%s_mixed_discount_rates' % ''.join(map(str, o)), dict(kind='rename', naming=None, order=list(o), two_node=False, T=2, wacc=True)))
         out.append(('order_%s_mixed_discount_rates_repeated_setup' % ''.join(map(str, o)), dict(kind='rename', naming=None, order=list(o), two_node=False, T=2, wacc=True, repeat=True)))
     out.append(('rename_numeric_mixed_discount_rates_repeated_setup', dict(kind='rename', naming='numeric', order=[0, 1, 2, 3], two_node=True, T=2, wacc=True, repeat=True)))
+    # order of the assets INSIDE a structured / linked asset
+    for o in ((1, 0, 2), (2, 1, 0)) if tier != 'thorough' else [p_ for p_ in itertools.permutations(range(3)) if list(p_) != [0, 1, 2]]:
+        out.append(('structured_inner_order_%s' % ''.join(map(str, o)), dict(kind='inner', which='structured', order=list(o), T=5)))
+    for o in ((3, 2, 0, 1), (2, 3, 1, 0)) if tier != 'thorough' else [p_ for p_ in itertools.permutations(range(4)) if list(p_) != [0, 1, 2, 3]][::3]:
+        out.append(('linked_inner_order_%s' % ''.join(map(str, o)), dict(kind='inner', which='linked', order=list(o), T=3)))
     out.append(('rename_and_order', dict(kind='rename', naming='numeric', order=[2, 0, 3, 1], two_node=True, T=3)))
     out.append(('many_variables_1x_x', dict(kind='rename', naming='many', order=[0, 1], two_node=False, T=12)))
     for nm, names in (('substring', ('gen', 'gen_big')), ('numeric', ('1', '12')), ('plain', ('ga', 'gb'))):
@@ -112,6 +117,32 @@ def build_linked(D, names, swap, T):
     return pf, tg, prices
 
 
+def build_inner(D, which, order, T):
+    """wrappers with an inner portfolio given in `order`: the order of the WRAPPED assets must not matter either"""
+    eao = lift.import_eao()
+    tg = shapes.grid(T)
+    if which == 'structured':
+        nI, nE = shapes.nodes('I', 'E')
+        early = shapes.mk_market(D, 'early', nI, T, 'p', win=(0, 3), tg=tg)
+        late = shapes.mk_market(D, 'late', nI, T, 'q', ec=True, win=(2, 5), tg=tg)
+        pipe = shapes.mk_transport(D, 'pipe', nI, nE, eff=0.5, win=(0, 5), tg=tg)
+        inner = [early, late, pipe]
+        s_, e_ = shapes.window(tg, (1, 4))
+        w = eao.portfolio.StructuredAsset(name='struct', nodes=nE, portfolio=eao.portfolio.Portfolio([inner[i] for i in order]), start=s_, end=e_)
+        pf = eao.portfolio.Portfolio([w, shapes.mk_market(D, 'sink', nE, T, 'r')])
+    else:
+        nP, nQ = shapes.nodes('P', 'Q')
+        ga = shapes.mk_plant(D, 'ga', [nP], T, price='p', fuel=False, mr=0, sym_cap=True)
+        gb = shapes.mk_plant(D, 'gb', [nP], T, price='q', fuel=False, mr=2, sym_cap=True)
+        aux = shapes.mk_market(D, 'aux', nQ, T, 'r', ec=True)
+        line = shapes.mk_transport(D, 'line', nQ, nP, eff=0.5)
+        inner = [ga, gb, aux, line]
+        w = eao.portfolio.LinkedAsset(eao.portfolio.Portfolio([inner[i] for i in order]), asset1_variable=('ga', 'disp', 'P'), asset2_variable=('gb', 'bool_on', None),
+                                      name='link', nodes=nP, time_back=1, time_forward=0, asset2_time_already_running=0)
+        pf = eao.portfolio.Portfolio([w, shapes.mk_market(D, 'mP', nP, T, 'r')])
+    return pf, tg, shapes.prices_for(D, ['p', 'q', 'r'], T)
+
+
 def renamer(an, nn):
     inv_a = {v: k for k, v in an.items()}
     inv_n = {v: k for k, v in nn.items()}
@@ -146,6 +177,11 @@ def run_case(case_id, tier, seed, kind, **kw):
             pf0, tg0, prices0, an0, nn0 = build(D, None, [0, 1, 2, 3], kw['two_node'], T, kw.get('wacc', False))
             ren = renamer(an, nn)
             colmap = dict(assets=an, nodes=nn)
+        elif kind == 'inner':
+            pf, tg, prices = build_inner(D, kw['which'], kw['order'], T)
+            pf0, tg0, prices0 = build_inner(D, kw['which'], sorted(kw['order']), T)
+            ren = None
+            colmap = None
         else:
             pf, tg, prices = build_linked(D, kw['names'], kw['swap'], T)
             pf0, tg0, prices0 = build_linked(D, ['ga', 'gb'], False, T)
@@ -245,6 +281,9 @@ def observe(case, kwargs, env, rq):
     if kind == 'rename':
         pf, tg, prices, an, nn = build(D, kw['naming'], kw['order'], kw['two_node'], T, kw.get('wacc', False))
         pf0, tg0, prices0, _, _ = build(D, None, [0, 1, 2, 3], kw['two_node'], T, kw.get('wacc', False))
+    elif kind == 'inner':
+        pf, tg, prices = build_inner(D, kw['which'], kw['order'], T)
+        pf0, tg0, prices0 = build_inner(D, kw['which'], sorted(kw['order']), T)
     else:
         pf, tg, prices = build_linked(D, kw['names'], kw['swap'], T)
         pf0, tg0, prices0 = build_linked(D, ['ga', 'gb'], False, T)
@@ -260,7 +299,7 @@ def observe(case, kwargs, env, rq):
         o['v_P'] = None if isinstance(r1, str) else float(r1.value); o['s_P'] = r1 if isinstance(r1, str) else 'optimal'
         o['v_Q'] = None if isinstance(r0, str) else float(r0.value); o['s_Q'] = r0 if isinstance(r0, str) else 'optimal'
         info = rq.get('info', {})
-        ren_ = renamer(an, nn) if kind == 'rename' else linked_renamer(kw['names'])
+        ren_ = renamer(an, nn) if kind == 'rename' else (None if kind == 'inner' else linked_renamer(kw['names']))
         if info.get('kind') == 'emb':
             if info.get('dir') == 'renamed2base':
                 o['nums'] = embed_lp.replay_keys(op, op0, env, 'x', rename_P=ren_)
